@@ -407,6 +407,12 @@ func (x *exec) staticTypeOfSpecLval(fs *spec.FuncSpec, fn *ssa.Function, c *ssa.
 			if i := fieldIndex(bt, e.Name); i >= 0 {
 				return types.Unalias(bt).Underlying().(*types.Struct).Field(i).Type(), true
 			}
+			if len(e.Name) > 0 && e.Name[0] == '$' {
+				// ghost field: its declared type (only "ref" matters here: Mem(x.$ghostref))
+				if g := x.e.w.Ghosts[e.Name]; g != nil && g.Type != nil && g.Type.Name == "ref" {
+					return types.Typ[types.UnsafePointer], true
+				}
+			}
 			return nil, false
 		}
 		return nil, false
@@ -432,6 +438,9 @@ func (x *exec) staticTypeOfSpecLval(fs *spec.FuncSpec, fn *ssa.Function, c *ssa.
 			}
 			if sl, ok := types.Unalias(bt).Underlying().(*types.Slice); ok {
 				return memKeyPrefix(sl.Elem()), "", true
+			}
+			if b, ok := types.Unalias(bt).Underlying().(*types.Basic); ok && b.Kind() == types.UnsafePointer {
+				return memKeyPrefix(types.Universe.Lookup("byte").Type()), "", true
 			}
 		}
 	case *spec.SliceEx:
